@@ -236,6 +236,26 @@ def _ptr_offset(e, ptr):
     return None
 
 
+def _indexed_block(a, ptr):
+    """(scale, index variable) when a is `ptr + scale * v` / `ptr + v * scale` / `&ptr[scale * v]`, else None."""
+    a = strip(a)
+    if kind(a) == "addr" and kind(strip(a[1])) == "index":
+        ix = strip(a[1])
+        base, off = strip(ix[1]), strip(ix[2])
+    elif kind(a) == "bin" and a[1] == "+":
+        base, off = strip(a[2]), strip(a[3])
+    else:
+        return None
+    if kind(base) != "var" or base[1] != ptr or kind(off) != "bin" or off[1] != "*":
+        return None
+    l, r = strip(off[2]), strip(off[3])
+    if is_int(l) and kind(r) == "var":
+        return int_val(l), r[1]
+    if is_int(r) and kind(l) == "var":
+        return int_val(r), l[1]
+    return None
+
+
 def block_consumer_obligations(prog):
     """R-CUR (multi-block form): every iteration of a loop that feeds fixed-size blocks to a consumer must consume
     consecutive blocks starting at the cursor, advance the cursor by exactly the bytes consumed and decrement the block
@@ -255,7 +275,7 @@ def block_consumer_obligations(prog):
         for h in heads:
             body = {b for b in f.reachable_from(h) if h in f.reachable_from(b)} | {h}
             order = [b for b in f.rpo() if b in body]
-            offs, adv, dec, odd = [], 0, 0, []
+            offs, adv, dec, odd, indexed = [], 0, 0, [], []
             for b in order:
                 blk = f.blocks[b]
                 for el in blk.elems:
@@ -270,7 +290,13 @@ def block_consumer_obligations(prog):
                                 if o is not None:
                                     break
                             if o is None:
-                                odd.append("consumer argument not of the form %s + c at %s" % (ptr, x[2]))
+                                ix = None
+                                for a in x[3]:
+                                    ix = ix or _indexed_block(a, ptr)
+                                if ix is not None:
+                                    indexed.append((ix, x[2]))
+                                else:
+                                    odd.append("consumer argument not of the form %s + c at %s" % (ptr, x[2]))
                             else:
                                 offs.append(adv + o)
                         elif k == "assign" and kind(strip(x[2])) == "var" and strip(x[2])[1] == ptr:
@@ -289,6 +315,22 @@ def block_consumer_obligations(prog):
                                 dec += c
                         elif k == "incdec" and kind(strip(x[3])) == "var" and strip(x[3])[1] == cntv:
                             dec += 1 if x[1] == "--" else -1
+            if indexed and not offs:
+                # indexed form: for (i = 0; i < n_blocks; i++) consumer(.., ptr + bs * i): block i at offset bs * i, the cursor and the
+                # counter are left alone, the counter variable i goes up by one per iteration and is bounded by the block count
+                n += 1
+                (scale, iv), loc_ = indexed[0]
+                incs = sum(1 for b in body for el in f.blocks[b].elems if el.top for x in walk(el.e)
+                           if kind(x) == "incdec" and x[1] == "++" and kind(strip(x[3])) == "var" and strip(x[3])[1] == iv)
+                bounded = any(f.blocks[b].cond is not None and kind(strip(f.blocks[b].cond)) == "bin" and strip(f.blocks[b].cond)[1] == "<"
+                              and kind(strip(strip(f.blocks[b].cond)[2])) == "var" and strip(strip(f.blocks[b].cond)[2])[1] == iv
+                              and kind(strip(strip(f.blocks[b].cond)[3])) == "var" and strip(strip(f.blocks[b].cond)[3])[1] == cntv for b in body)
+                ok = len(indexed) == 1 and scale == bs and incs == 1 and bounded and adv == 0 and dec == 0 and not odd
+                obs.append(Obligation("R-FLOW", "R-FLOW:blocks:%s:loop#%d" % (fname, n), loc_, fname,
+                                      "each iteration must compress the next %d-byte block: block i at %s + %d*i for i = 0 .. %s - 1" % (bs, ptr, bs, cntv),
+                                      ok, "indexed form: block at %s + %d*%s, %s incremented %d time(s) per iteration, %sbounded by %s%s"
+                                      % (ptr, scale, iv, iv, incs, "" if bounded else "NOT ", cntv, ("; " + "; ".join(odd)) if odd else ""), props=props))
+                continue
             if not offs:
                 continue
             in_loops += len(offs)
